@@ -428,7 +428,9 @@ class Func:
 
     def witness(self, seen, bid):
         path = []
-        while bid is not None:
+        visited = set()
+        while bid is not None and bid not in visited:
+            visited.add(bid)
             path.append(bid)
             bid = seen.get(bid)
         path.reverse()
